@@ -17,6 +17,27 @@ type Piece struct {
 	n     *Term
 	cap   int
 	alpha *alphabet // bytes a view may contain (nil: any); set by vn.StringIn, kept by slicing
+	taint uint32    // secret classes whose bytes this piece may carry (C14)
+}
+
+func sTaint(s *Str) uint32 {
+	var t uint32
+	for _, p := range s.p {
+		t |= p.taint
+	}
+	return t
+}
+
+func sWithTaint(s *Str, t uint32) *Str {
+	if t == 0 || len(s.p) == 0 {
+		return s
+	}
+	out := make([]Piece, len(s.p))
+	for i, p := range s.p {
+		p.taint |= t
+		out[i] = p
+	}
+	return &Str{p: out}
 }
 
 func (p Piece) mayContain(b byte) bool {
@@ -119,7 +140,7 @@ func (s *Str) subRope(i0, k0, i1, k1 int) *Str {
 				hi = k1
 			}
 			if lo < hi {
-				out = append(out, Piece{c: p.c[lo:hi]})
+				out = append(out, Piece{c: p.c[lo:hi], taint: p.taint})
 			}
 		} else {
 			out = append(out, p)
@@ -203,8 +224,8 @@ func sConcat(a, b *Str) *Str {
 	}
 	out := append([]Piece(nil), a.p...)
 	for _, p := range b.p {
-		if p.isConst() && len(out) > 0 && out[len(out)-1].isConst() {
-			out[len(out)-1] = Piece{c: out[len(out)-1].c + p.c}
+		if p.isConst() && len(out) > 0 && out[len(out)-1].isConst() && out[len(out)-1].taint == p.taint {
+			out[len(out)-1] = Piece{c: out[len(out)-1].c + p.c, taint: p.taint}
 		} else if !p.isConst() || p.c != "" {
 			out = append(out, p)
 		}
@@ -254,7 +275,7 @@ func (st *State) flat(s *Str) Piece {
 		}
 	}
 	st.addDef(And(cs...))
-	f := Piece{arr: arr, off: I(0), n: off, cap: cap, alpha: unionAlpha(s.p)}
+	f := Piece{arr: arr, off: I(0), n: off, cap: cap, alpha: unionAlpha(s.p), taint: sTaint(s)}
 	nc := make(map[*Str]Piece, len(st.flatCache)+1)
 	for k, v := range st.flatCache {
 		nc[k] = v
@@ -421,7 +442,7 @@ func (st *State) sSlice(s *Str, lo, hi *Term) *Str {
 	if cap <= 0 {
 		return emptyStr
 	}
-	return &Str{p: []Piece{{arr: f.arr, off: Add(f.off, lo), n: n, cap: cap, alpha: f.alpha}}}
+	return &Str{p: []Piece{{arr: f.arr, off: Add(f.off, lo), n: n, cap: cap, alpha: f.alpha, taint: f.taint}}}
 }
 
 // sIndexConst returns an Int term equal to strings.Index(s, needle) for a constant needle.
@@ -633,7 +654,7 @@ func (st *State) sTrimSpace(s *Str) *Str {
 	cs = append(cs, Implies(Lt(a, f.n), And(Lt(a, b), Not(isASCIISpace(pieceByte(f, Sub(b, I(1))))))))
 	cs = append(cs, Implies(Eq(a, f.n), Eq(b, a)))
 	st.addDef(And(cs...))
-	return &Str{p: []Piece{{arr: f.arr, off: Add(f.off, a), n: Sub(b, a), cap: f.cap, alpha: f.alpha}}}
+	return &Str{p: []Piece{{arr: f.arr, off: Add(f.off, a), n: Sub(b, a), cap: f.cap, alpha: f.alpha, taint: f.taint}}}
 }
 
 // trimSpaceStructural trims whitespace when it can only occur in constant pieces at the ends.
@@ -646,7 +667,7 @@ func trimSpaceStructural(s *Str) (*Str, bool) {
 			ps = ps[1:]
 			continue
 		}
-		ps[0] = Piece{c: t}
+		ps[0] = Piece{c: t, taint: ps[0].taint}
 		break
 	}
 	for len(ps) > 0 && ps[len(ps)-1].isConst() {
@@ -655,7 +676,7 @@ func trimSpaceStructural(s *Str) (*Str, bool) {
 			ps = ps[:len(ps)-1]
 			continue
 		}
-		ps[len(ps)-1] = Piece{c: t}
+		ps[len(ps)-1] = Piece{c: t, taint: ps[len(ps)-1].taint}
 		break
 	}
 	if len(ps) == 0 {
@@ -692,7 +713,7 @@ func (st *State) sMapBytes(s *Str, fn func(b *Term) *Term, goFn func(byte) byte)
 		cs = append(cs, Implies(Lt(ii, f.n), Eq(Select(arr, ii), fn(pieceByte(f, ii)))))
 	}
 	st.addDef(And(cs...))
-	return &Str{p: []Piece{{arr: arr, off: I(0), n: f.n, cap: f.cap}}}
+	return &Str{p: []Piece{{arr: arr, off: I(0), n: f.n, cap: f.cap, taint: f.taint}}}
 }
 
 func lowerByte(b *Term) *Term {
@@ -761,7 +782,7 @@ func (st *State) sIte(c *Term, a, b *Str) *Str {
 		cs = append(cs, Implies(Lt(ii, n), Eq(Select(arr, ii), v)))
 	}
 	st.addDef(And(cs...))
-	return &Str{p: []Piece{{arr: arr, off: I(0), n: n, cap: cap}}}
+	return &Str{p: []Piece{{arr: arr, off: I(0), n: n, cap: cap, taint: sTaint(a) | sTaint(b)}}}
 }
 
 // splitOutcome is one way strings.Split(s, sep) can come out: exactly k separators.
@@ -840,7 +861,7 @@ func (st *State) sSplitByte(s *Str, sep byte, maxSep int) []splitOutcome {
 			if j < k {
 				end = pos[j]
 			}
-			parts = append(parts, &Str{p: []Piece{{arr: f.arr, off: Add(f.off, prev), n: Sub(end, prev), cap: f.cap - j, alpha: f.alpha}}})
+			parts = append(parts, &Str{p: []Piece{{arr: f.arr, off: Add(f.off, prev), n: Sub(end, prev), cap: f.cap - j, alpha: f.alpha, taint: f.taint}}})
 			if j < k {
 				prev = Add(pos[j], I(1))
 			}
